@@ -1,8 +1,9 @@
 // C03 — transactions are all-or-nothing (DESIGN.md 5/C03).
-// Four generated sub-checks: crash points inside commit (child process),
+// Five generated sub-checks: crash points inside commit (child process),
 // torn final log write (truncation inside the batch's byte range),
-// concurrent visibility (tag monotonicity / snapshot equality), and
-// last-write-wins + capture-at-call-time with reused caller buffers.
+// concurrent visibility (tag monotonicity / snapshot equality),
+// last-write-wins + capture-at-call-time with reused caller buffers, and
+// failed commits under an injected file-size limit (iofault_test.go).
 package c03
 
 import (
@@ -34,14 +35,17 @@ import (
 	"verif/internal/gen"
 )
 
-const rule = "four sub-checks. crash: transaction-heavy programs (bodies 1-300 ops, values up to several log buffers) killed in a child at a " +
+const rule = "five sub-checks. crash: transaction-heavy programs (bodies 1-300 ops, values up to several log buffers) killed in a child at a " +
 	"hit of wal.batch.*/storage.batch.*/tx.commit.*/wal.sync.* sites, prefix-state oracle (a strict subset of a transaction is not a prefix state). " +
 	"torn: the newest log is cut at byte offsets inside the last committed transaction's byte range, reopen must give the state before or after " +
 	"that transaction. visibility: one writer commits tagged transactions over all K keys (engine Commit or service BatchWrite) while readers " +
 	"do ordered Get pairs (tag(first) <= tag(second)) and read-only transactions/scans (all tags equal), with a yield plan at batch/commit hook " +
 	"sites. buffer: sequential bodies with repeated keys, put/delete mixes, commit or rollback, the caller reusing and scribbling over one key " +
-	"and one value buffer; map-model oracle, also after reopen. non-trivial: crash strictly inside the commit path / cut strictly inside the " +
-	"batch / a reader observation that saw the tag change (overlapped a commit) / a body with a repeated key; distinct by case hash"
+	"and one value buffer; map-model oracle, also after reopen. iofault: tx/batch/put/delete/flush/reopen programs (synchronous logging) run under a " +
+	"generated file-size limit (RLIMIT_FSIZE) so that a log write fails part-way like on a full disk, rotation starts a fresh file and later writes " +
+	"succeed again; after every step every key must read as the acknowledged state (a failed transaction leaves no trace, an acknowledged one is " +
+	"complete), also after reopen. non-trivial: crash strictly inside the commit path / cut strictly inside the " +
+	"batch / a reader observation that saw the tag change (overlapped a commit) / a body with a repeated key / at least one write failed under the limit; distinct by case hash"
 
 func TestMain(m *testing.M) {
 	if os.Getenv("VERIF_CHILD_SPEC") != "" {
@@ -74,6 +78,7 @@ type Doc struct {
 	Torn     *TornCase        `json:"torn,omitempty"`
 	Vis      *VisCase         `json:"vis,omitempty"`
 	Buf      *BufCase         `json:"buf,omitempty"`
+	IO       *IOCase          `json:"io,omitempty"`
 	Failure  string           `json:"failure,omitempty"`
 	History  []string         `json:"history,omitempty"`
 }
@@ -1015,6 +1020,8 @@ func TestReplay(t *testing.T) {
 		}
 	case "buffer":
 		f, _, _ = runBuf(d.Buf)
+	case "iofault":
+		f, _, _ = runIO(d.IO)
 	default:
 		t.Fatalf("unknown kind %q", d.Kind)
 	}
